@@ -330,10 +330,9 @@ func (p *HookProgram) EvalDecorator(sim *vs.Server, req map[string]any) map[stri
 	parent, _ := req["object"].(map[string]any)
 	observed, _ := req["attachments"].(map[string]any)
 	finalizing, _ := req["finalizing"].(bool)
-	saved := p.StatusMode
-	p.StatusMode = 0
-	resp := p.eval(sim, parent, observed, finalizing, "attachments")
-	p.StatusMode = saved
+	q := *p // (a copy: hook programs are evaluated concurrently)
+	q.StatusMode = 0
+	resp := q.eval(sim, parent, observed, finalizing, "attachments")
 	if p.Labels != nil {
 		l := map[string]any{}
 		for k, v := range p.Labels {
